@@ -189,7 +189,7 @@ class MiniTeX(object):
         self.stats = {"calls": 0, "max_depth": 0, "delimited": 0, "undelimited": 0,
                       "stripped_delimited": 0, "stripped_undelimited": 0, "partial_match": 0,
                       "hash_brace": 0, "opt_present": 0, "opt_default": 0, "csname": 0,
-                      "expandafter": 0, "expandafter_empty": 0, "double_hash": 0, "let_macro": 0, "let_char": 0, "conds": 0,
+                      "expandafter": 0, "expandafter_empty": 0, "double_hash": 0, "quad_hash": 0, "let_macro": 0, "let_char": 0, "conds": 0,
                       "skipped_nested": 0, "global_defs": 0, "gdef_over_local": 0, "local_defs_in_group": 0,
                       "restored": 0, "max_level": 1, "calls_at_depth>0": 0}
         self.trace = []                # (kind, outcome) per evaluated conditional, in order
@@ -865,8 +865,10 @@ class MiniTeX(object):
     def scan_body(self, nparams):                   # tw 477
         body = []
         unbalance = 1
+        last_was_hash = False
         while True:
             t = self.get_token("scanning a definition")
+            was_hash, last_was_hash = last_was_hash, False
             if t[0] == "ch":
                 if t[2] == 1:
                     unbalance += 1
@@ -877,7 +879,10 @@ class MiniTeX(object):
                 elif t[2] == 6:
                     t2 = self.get_token("scanning a definition")
                     if t2[0] == "ch" and t2[2] == 6:
+                        if body and body[-1] == t2 and was_hash:
+                            self.stats["quad_hash"] += 1
                         body.append(t2)
+                        last_was_hash = True
                         self.stats["double_hash"] += 1
                         continue
                     if (t2[0] != "ch" or t2[2] != 12 or not ("1" <= t2[1] <= "9") or
